@@ -178,7 +178,7 @@ Qed.
 
 Lemma step0_inv : forall nd o, node_inv nd -> node_inv (fst (step0 nd o)).
 Proof.
-  intros nd o H; pose proof H as [Hc Hs]; destruct o as [e tsok propok pre|n| |p| | |b|c t i|c t i content|c t i|c|o'|bd]; cbn; [| | | | | | | | | | |exact H|exact H].
+  intros nd o H; pose proof H as [Hc Hs]; destruct o as [e tsok propok pre|n| |p| | |b|c t i|c t i content|c t i|c|o'|bd|back]; cbn; [| | | | | | | | | | |exact H|exact H|].
   - destruct (pre && prefilter (r_synced (n_cur nd)) e); [exact H|].
     destruct (negb tsok); [exact H|]. destruct (negb propok); [exact H|]. split; cbn; assumption.
   - destruct (Nat.min n (length (n_pending nd))) eqn:E; [exact H|]. apply commit_n_inv; exact H.
@@ -200,6 +200,8 @@ Proof.
     destruct (negb (sn_status o =? apply_snap_transferred)); [exact H|split; cbn; assumption].
   - split; cbn; assumption.
   - split; cbn; assumption.
+  - destruct (back <=? length (n_log nd))%nat; [|exact H]. split; cbn; [exact Hc|].
+    split; [lia|reflexivity].
 Qed.
 
 Lemma step_not_rpc : forall nd o, (forall o', o <> OSnapRpc o') -> step nd o = step0 nd o.
@@ -246,7 +248,7 @@ Lemma step0_log_ext : forall nd o, exists ext, n_log (fst (step0 nd o)) = n_log 
   n_cur (fst (step0 nd o)) = apply_log (n_cur nd) ext \/
   (n_log (fst (step0 nd o)) = n_log nd ++ ext /\ ext = [] /\ o = ORestart).
 Proof.
-  intros nd o; destruct o as [e tsok propok pre|n| |p| | |b|c t i|c t i content|c t i|c|o'|bd]; cbn; [| | | | | | | | | | |exists []; left; now rewrite app_nil_r|exists []; left; now rewrite app_nil_r].
+  intros nd o; destruct o as [e tsok propok pre|n| |p| | |b|c t i|c t i content|c t i|c|o'|bd|back]; cbn; [| | | | | | | | | | |exists []; left; now rewrite app_nil_r|exists []; left; now rewrite app_nil_r|].
   - exists []. left. destruct (pre && prefilter (r_synced (n_cur nd)) e); [now rewrite app_nil_r|].
     destruct (negb tsok); [now rewrite app_nil_r|]. destruct (negb propok); now rewrite app_nil_r.
   - destruct (Nat.min n (length (n_pending nd))) eqn:E.
@@ -264,6 +266,7 @@ Proof.
     destruct (negb (sn_status o =? apply_snap_transferred)); now rewrite app_nil_r.
   - exists []; left; now rewrite app_nil_r.
   - exists []; left; now rewrite app_nil_r.
+  - exists []; left. destruct (back <=? length (n_log nd))%nat; now rewrite app_nil_r.
 Qed.
 
 Lemma step_log_ext : forall nd o, exists ext, n_log (fst (step nd o)) = n_log nd ++ ext /\
@@ -593,7 +596,7 @@ Qed.
 
 Lemma step0_tags : forall nd o, tags_ok nd -> tags_ok (fst (step0 nd o)).
 Proof.
-  intros nd o H; pose proof H as [Hl Hp]; destruct o as [e tsok propok pre|n| |p| | |b|c t i|c t i content|c t i|c|o'|bd]; cbn; [| | | | | | | | | | |exact H|exact H].
+  intros nd o H; pose proof H as [Hl Hp]; destruct o as [e tsok propok pre|n| |p| | |b|c t i|c t i content|c t i|c|o'|bd|back]; cbn; [| | | | | | | | | | |exact H|exact H|].
   - destruct (pre && prefilter (r_synced (n_cur nd)) e); [exact H|].
     destruct (negb tsok); [exact H|]. destruct (negb propok); [exact H|]. split; cbn; [exact Hl|].
     apply Forall_app; split; [exact Hp|]. constructor; [exact I|constructor].
@@ -612,6 +615,7 @@ Proof.
     destruct (negb (sn_status o =? apply_snap_transferred)); [exact H|]. now apply snoc_pending_tags.
   - split; cbn; [exact Hl|]. apply Forall_app; split; [exact Hp|]. constructor; [exact I|constructor].
   - exact H.
+  - destruct (back <=? length (n_log nd))%nat; exact H.
 Qed.
 
 Lemma step_tags : forall nd o, tags_ok nd -> tags_ok (fst (step nd o)).
@@ -1123,7 +1127,7 @@ Lemma step_from : forall nd o ds,
   from_delivered nd ds -> from_delivered (fst (step nd o)) (ds ++ delivered [o]).
 Proof.
   intros nd o ds Hns H. pose proof (from_delivered_weaken nd ds (delivered [o]) H) as W.
-  destruct o as [x tsok propok pre|n| |p| | |b|c t i|c t i content|c t i|c|o'|bd]; try contradiction; cbn [step step0 delivered].
+  destruct o as [x tsok propok pre|n| |p| | |b|c t i|c t i content|c t i|c|o'|bd|back]; try contradiction; cbn [step step0 delivered].
   - destruct (pre && prefilter (r_synced (n_cur nd)) x); [exact W|].
     destruct (negb tsok); [exact W|]. destruct (negb propok); [exact W|]. unfold from_delivered; cbn.
     intros le He. rewrite app_assoc in He. apply in_app_or in He. destruct He as [He|[He|[]]].
@@ -1144,6 +1148,7 @@ Proof.
     + right. destruct (Hr le He) as [e [H1 H2]]. exists e; split; [exact H1|]. apply in_or_app; right. now rewrite app_nil_r.
   - exact W.
   - exact W.
+  - destruct (back <=? length (n_log nd))%nat; exact W.
 Qed.
 
 Lemma run_from_delivered : forall ops, no_snap_ops ops -> from_delivered (run ops) (delivered ops).
